@@ -26,6 +26,20 @@ CHECKS = {
          "x modes) and on sampled decimal intervals and indices up to 2e6.",
          "positions are symbolic (offset+(k+f)*interval) so floating-point rounding cannot flip the expected answer.",
          "DESIGN.md 4/C07"),
+ "C02": ("Hypothesis-generated operation programs (stateful), round-trip oracle on a canonical introspective walk + skeleton reference model",
+         "Generated histories over all entity kinds with reopen checkpoints: the walk before close must equal the walk "
+         "after read-only and read-write reopen, and a reference model of the calls (existence, order, links, last-"
+         "written attributes, property values, shapes) must agree with the walk; an attribute sweep writes every "
+         "(kind, attribute) several times through independent handles.",
+         "The walk enumerates public properties by introspection; model comparison is suspended after a refused op "
+         "(C12's subject).", "DESIGN.md 4/C02"),
+ "C03": ("Hypothesis-generated create/delete/link programs vs. ordered (name, id) model per container",
+         "Every container of every kind is compared after (almost) every step with an ordered model: len, iteration, "
+         "positive/negative indexing, out-of-range, lookup by name and id, membership, items(); duplicate attempts "
+         "must raise DuplicateName, legal names (long, non-ASCII, id-like) must be accepted; ids are well-formed, "
+         "unique and stable across handles and reopen.",
+         "A name equal to the id of a sibling in the same container is treated as out of domain (ambiguous key).",
+         "DESIGN.md 4/C03"),
 }
 PENDING = {}
 
